@@ -7,7 +7,7 @@ import time
 import z3
 
 Z3_TIMEOUT_MS = int(os.environ.get('PYVC_Z3_TIMEOUT_MS', '20000'))
-CVC5_TIMEOUT_S = int(os.environ.get('PYVC_CVC5_TIMEOUT_S', '30'))
+CVC5_TIMEOUT_S = int(os.environ.get('PYVC_CVC5_TIMEOUT_S', '15'))
 CVC5 = '/usr/bin/cvc5'
 Z3CLI = '/usr/bin/z3'
 
@@ -43,7 +43,7 @@ def check(pc, goal, timeout_ms=None, want_model=True, observe=()):
           pass
     return 'sat', model, 'z3', dt
   # unknown: z3 with MBQI (CLI), then cvc5, on the exported problem
-  st = cli_check(s, [Z3CLI if os.path.exists(Z3CLI) else 'z3', '-T:%d' % max(5, (timeout_ms or Z3_TIMEOUT_MS) // 1000), 'smt.mbqi=true'])
+  st = cli_check(s, [Z3CLI if os.path.exists(Z3CLI) else 'z3', '-T:%d' % max(5, (timeout_ms or Z3_TIMEOUT_MS) // 2000), 'smt.mbqi=true'])
   if st in ('unsat', 'sat'):
     # MBQI only answers sat when its model satisfies the quantifiers; no model is extracted from the CLI run
     return st, ({} if st == 'sat' else None), 'z3-cli-mbqi', time.time() - t0
@@ -113,8 +113,15 @@ def cvc5_check(solver):
 
 
 def discharge(obligations, timeout_ms=None, observe=()):
+  unknown_by_name = {}
   for ob in obligations:
+    if unknown_by_name.get(ob.name, 0) >= 2:
+      # the same obligation (other paths) already exhausted every back end twice: do not spend the budget again
+      ob.status, ob.model, ob.backend, ob.time = 'unknown', None, 'skipped-after-2-unknown', 0.0
+      continue
     status, model, backend, dt = check(ob.pc, ob.goal, timeout_ms, observe=observe)
+    if status == 'unknown':
+      unknown_by_name[ob.name] = unknown_by_name.get(ob.name, 0) + 1
     ob.status, ob.model, ob.backend, ob.time = status, model, backend, dt
   return obligations
 
